@@ -25,52 +25,79 @@ def run(chk, tier, only_rule=None):
         chk.analysed(fn)
         g = C.CFG(fn['body'])
         inserts = []; erases = []
+        def old_value_expr(e):
+            """`(*it).value()` / `it->value()`: the member the lookup found."""
+            t = A.text(e)
+            return 'value()' in t and 'it' in t and 'member' not in t
         for nd in g.rpo:
             if nd.kind not in ('stmt', 'cond') or not isinstance(nd.ast, dict): continue
             for c in A.calls_in(nd.ast):
                 if c.get('k') == 'CXXMemberCallExpr' and A.ref_name(c.get('obj')) == 'target':
-                    if A.callee_name(c) in ('try_emplace', 'insert_or_assign', 'emplace', 'insert', 'set'): inserts.append((nd, c))
+                    if A.callee_name(c) in ('try_emplace', 'insert_or_assign', 'emplace', 'insert', 'set'): inserts.append((nd, c, 'insert'))
                     if A.callee_name(c) == 'erase': erases.append((nd, c))
-        chk.require(len(inserts) >= 2 and erases, 'apply_merge_patch_: insert/erase calls not found')
-        for i, (nd, c) in enumerate(inserts):
+                # the same update made in place: `(*it).value() = v;` or `apply_merge_patch_((*it).value(), member.value());` as a statement
+                if c.get('k') == 'CXXOperatorCallExpr' and c.get('oop') == '=' and len(c.get('args') or []) == 2 and old_value_expr(c['args'][0]):
+                    inserts.append((nd, c, 'assign'))
+            top = A.strip(nd.ast)
+            if nd.kind == 'stmt' and top is not None and A.is_call(top) and A.callee_name(top) == 'apply_merge_patch_' and len(top.get('args') or []) == 2 and old_value_expr(top['args'][0]):
+                inserts.append((nd, top, 'inplace'))
+        chk.require(len(inserts) >= 2 and erases, 'apply_merge_patch_: updates of the target (insert / assignment / in-place merge) and erase calls not found')
+        for i, (nd, c, how) in enumerate(inserts):
             gt = guard_texts(g, nd)
             ok = any(('is_null()' in t and 'member' in t and lab is False) for t, lab in gt)
             site = U.site(fn, 'insert#%d' % (i + 1))
+            cname = A.callee_name(c) if how == 'insert' else ('assignment to the found member' if how == 'assign' else 'in-place merge')
             if ok: chk.ok('R16.1', site, {'line': c.get('l'), 'guards': [t for t, l in gt][:3]})
-            else: chk.fail('R16.1', site, fn['file'], c.get('l'), 'target.%s is not under `!member.value().is_null()`: a null patch member would be inserted instead of deleting' % A.callee_name(c), None, fn['q'])
+            else: chk.fail('R16.1', site, fn['file'], c.get('l'), 'target.%s is not under `!member.value().is_null()`: a null patch member would be inserted instead of deleting' % cname, None, fn['q'])
             # R16.4
             args = c.get('args') or []
-            rec = [x for x in A.calls_in(args[1]) if A.callee_name(x) == 'apply_merge_patch_'] if len(args) > 1 else []
+            found_branch = any(('end()' in t and ((lab is True and '!=' in t) or (lab is False and '==' in t))) for t, lab in guard_texts(g, nd))
             site4 = U.site(fn, 'inserted value#%d' % (i + 1))
             ok4 = False
-            if rec:
-                ra = rec[0].get('args') or []
-                first = A.ref_name(ra[0]) if ra else ''
-                second = A.text(ra[1]) if len(ra) > 1 else ''
-                # `first` must hold, on every path, the old member value (found branch) or a fresh empty object (absent branch):
-                # all definitions of the local that reach this call are of the right kind
-                found_branch = any(('end()' in t and ((lab is True and '!=' in t) or (lab is False and '==' in t))) for t, lab in guard_texts(g, nd))
-                defs = []
-                for m in g.rpo:
-                    if m.kind != 'stmt' or not isinstance(m.ast, dict): continue
-                    if m.ast.get('k') == 'DeclStmt':
-                        for d in m.ast.get('decls') or []:
-                            if d.get('n') == first and d.get('init') is not None: defs.append((m, A.text(d['init'])))
-                    am = U.assigned_member(m.ast)
-                    if am and am[0] == first: defs.append((m, A.text(am[1])))
-                reaching = [(m, t) for m, t in defs if any(g.can_reach(s2, [nd], avoid=[x for x, _ in defs if x is not m]) for s2 in m.succ) or m is nd]
-                def kind_of(t): return 'old' if ('value()' in t and 'it' in t) else ('fresh' if 'json_object_arg' in t else 'other')
-                kinds = set(kind_of(t) for m, t in reaching)
-                ok4 = bool(reaching) and kinds == ({'old'} if found_branch else {'fresh'})
-                ok4 = ok4 and 'member' in second and 'value()' in second
+            why = 'the inserted value is not apply_merge_patch_(old value or empty object, member.value())'
+            if how == 'inplace':
+                second = A.text(args[1])
+                ok4 = found_branch and 'member' in second and 'value()' in second
+            else:
+                rec = [x for x in A.calls_in(args[1]) if A.callee_name(x) == 'apply_merge_patch_'] if len(args) > 1 else []
+                if rec:
+                    ra = rec[0].get('args') or []
+                    first = A.ref_name(ra[0]) if ra else ''
+                    second = A.text(ra[1]) if len(ra) > 1 else ''
+                    # `first` must hold, on every path, the old member value (found branch) or a fresh empty object (absent branch):
+                    # all definitions of the local that reach this call are of the right kind
+                    defs = []
+                    for m in g.rpo:
+                        if m.kind != 'stmt' or not isinstance(m.ast, dict): continue
+                        if m.ast.get('k') == 'DeclStmt':
+                            for d in m.ast.get('decls') or []:
+                                if d.get('n') == first and d.get('init') is not None: defs.append((m, A.text(d['init'])))
+                        am = U.assigned_member(m.ast)
+                        if am and am[0] == first: defs.append((m, A.text(am[1])))
+                    reaching = [(m, t) for m, t in defs if any(g.can_reach(s2, [nd], avoid=[x for x, _ in defs if x is not m]) for s2 in m.succ) or m is nd]
+                    def kind_of(t): return 'old' if ('value()' in t and 'it' in t) else ('fresh' if 'json_object_arg' in t else 'other')
+                    kinds = set(kind_of(t) for m, t in reaching)
+                    ok4 = bool(reaching) and kinds == ({'old'} if found_branch else {'fresh'})
+                    if not ra or (not first and old_value_expr(ra[0]) and found_branch): ok4 = bool(ra)
+                    ok4 = ok4 and 'member' in second and 'value()' in second
+                elif len(args) > 1 and 'member' in A.text(args[1]) and 'value()' in A.text(args[1]):
+                    # the patch value stored as it is: right only where MergePatch(anything, Value) = Value, i.e. Value is not an object
+                    # (an object value must go through the merge, which drops its null members)
+                    ok4 = any('member' in t and 'is_object()' in t and lab is False for t, lab in gt)
+                    why = 'the patch member value is stored unmerged on a path where it may be an object (RFC 7386: Target[Name] = MergePatch(Target[Name], Value); an object value keeps its null members this way)'
             if ok4: chk.ok('R16.4', site4, {'line': c.get('l')})
-            else: chk.fail('R16.4', site4, fn['file'], c.get('l'), 'the inserted value is not apply_merge_patch_(old value or empty object, member.value())', None, fn['q'])
-        for i, (nd, c) in enumerate(erases):
-            gs = g.guards(nd)
+            else: chk.fail('R16.4', site4, fn['file'], c.get('l'), why, None, fn['q'])
+        # R16.2: once the member is found, every way through the iteration either erases it or has established that the patch value is not null
+        founds = [e for m in g.rpo if m.kind == 'cond' and 'end()' in A.text(m.ast) and 'find' not in A.text(m.ast) for e in m.succ
+                  if e.kind == 'edge' and (A.strip(m.ast).get('oop') or A.strip(m.ast).get('op')) in ('!=', '==') and e.label is ((A.strip(m.ast).get('oop') or A.strip(m.ast).get('op')) == '!=')]
+        nonnull = [e for m in g.rpo if m.kind == 'cond' and 'is_null()' in A.text(m.ast) and 'member' in A.text(m.ast) for e in m.succ if e.kind == 'edge' and e.label is False]
+        chk.require(founds, 'apply_merge_patch_: test of the lookup result against end() not found')
+        for i, fe in enumerate(founds):
+            reach = g.reachable_from(fe, avoid=[x for x, _ in erases] + nonnull)
+            leak = [m for m in g.rpo if m.id in reach and (m.kind == 'join' or m is g.exit_return or m.kind == 'return')]
             site = U.site(fn, 'erase#%d' % (i + 1))
-            ok = bool(gs) and 'end()' in A.text(gs[0][0]) and ((A.strip(gs[0][0]).get('oop') or A.strip(gs[0][0]).get('op')) == '!=') == bool(gs[0][1])
-            if ok: chk.ok('R16.2', site, {'line': c.get('l'), 'nearest_guard': A.text(gs[0][0])})
-            else: chk.fail('R16.2', site, fn['file'], c.get('l'), 'target.erase is conditional on `%s` instead of only on the member being found: a null member would not delete' % (A.text(gs[0][0])[:50] if gs else 'nothing'), None, fn['q'])
+            if not leak: chk.ok('R16.2', site, {'line': fe.line, 'erase_lines': [c.get('l') for _, c in erases]})
+            else: chk.fail('R16.2', site, fn['file'], fe.line, 'a found member can stay in the target although the patch value is null: a path from the found branch reaches the next iteration without target.erase and without `member.value().is_null()` being false', None, fn['q'])
         # R16.3
         ok_ret = False; ok_reset = False
         for nd in g.rpo:
